@@ -137,6 +137,9 @@ struct InFlight {
     generation: u32,
     bytes: Vec<u8>,
     genuine: bool,
+    /// handed to the destination socket before everything else of its tick (the receiver has just emptied its
+    /// socket, so the kernel cannot drop it for a full receive buffer however much the rest of the tick carries)
+    first: bool,
 }
 
 struct World {
@@ -939,7 +942,7 @@ fn one_run_inner(ctx: &Ctx, out: &mut Outcome, run_seed: u64) {
                     let b = w.peers[k].prev_request.clone().unwrap();
                     w.peers[k].prev_request_replays += 1;
                     let g = w.peers[k].generation;
-                    w.flight.push(InFlight { at: w.tick, to_server: true, peer: k, generation: g, bytes: b, genuine: false });
+                    w.flight.push(InFlight { at: w.tick, to_server: true, peer: k, generation: g, bytes: b, genuine: false, first: false });
                     out.count("stale_request_of_previous_token_replayed_into_the_new_session");
                     w.log(format!("relay replays the connection request of id {}'s previous token from the same address", id));
                     relay_acted = true;
@@ -1050,7 +1053,7 @@ fn one_run_inner(ctx: &Ctx, out: &mut Outcome, run_seed: u64) {
                     out.count("stale_denied_shown_to_connected_client");
                     w.log(format!("RELAY delivers the ConnectionDenied it held back to peer {} (now connected)", k));
                     let at = w.tick;
-                    w.flight.push(InFlight { at, to_server: false, peer: k, generation: g, bytes, genuine: false });
+                    w.flight.push(InFlight { at, to_server: false, peer: k, generation: g, bytes, genuine: false, first: false });
                     w.stale_denied_shown.insert(k, w.tick);
                 } else if live && !w.peers[k].client.is_disconnected() {
                     keep.push((k, g, bytes));
@@ -1128,7 +1131,7 @@ fn one_run_inner(ctx: &Ctx, out: &mut Outcome, run_seed: u64) {
                     if let Some(b) = w.stale.get(&(k, g)).cloned() {
                         out.count("stale_handshake_replays_injected");
                         let at = w.tick;
-                        w.flight.push(InFlight { at, to_server: false, peer: k, generation: g, bytes: b, genuine: false });
+                        w.flight.push(InFlight { at, to_server: false, peer: k, generation: g, bytes: b, genuine: false, first: false });
                     }
                 }
                 let gone = w.peers[k].client.is_disconnected() && w.peers[k].transport.disconnect_reason().is_some();
@@ -1389,9 +1392,14 @@ fn one_run_inner(ctx: &Ctx, out: &mut Outcome, run_seed: u64) {
             }
             out.add("stranger_datagrams_sent", *k);
         }
+        // two passes: the datagrams that keep the interference-only relay's promise go out first
+        for first_pass in [true, false] {
         let mut i = 0;
         while i < w.flight.len() {
-            if w.flight[i].at <= w.tick {
+            if w.flight[i].at <= w.tick && (!first_pass || w.flight[i].first) {
+                if w.flight[i].first {
+                    out.count("relay_promise_datagrams_sent_first");
+                }
                 let f = w.flight.swap_remove(i);
                 if f.peer < w.peers.len() && w.peers[f.peer].generation == f.generation {
                     let p = &mut w.peers[f.peer];
@@ -1407,6 +1415,7 @@ fn one_run_inner(ctx: &Ctx, out: &mut Outcome, run_seed: u64) {
             } else {
                 i += 1;
             }
+        }
         }
         // ---- applications drain ------------------------------------------------------------------
         // server side: per id, attributed to the peer that holds the netcode session of that id
@@ -1612,9 +1621,9 @@ fn relay_in(w: &mut World, r: &mut Rng, cfg: &RelayCfg, faults_on: bool, to_serv
             }
             6 if !w.hasty_held.is_empty() => {
                 for b in std::mem::take(&mut w.hasty_held) {
-                    w.flight.push(InFlight { at: tick, to_server, peer, generation, bytes: b, genuine: true });
+                    w.flight.push(InFlight { at: tick, to_server, peer, generation, bytes: b, genuine: true, first: false });
                 }
-                w.flight.push(InFlight { at: tick, to_server, peer, generation, bytes: bytes.to_vec(), genuine: true });
+                w.flight.push(InFlight { at: tick, to_server, peer, generation, bytes: bytes.to_vec(), genuine: true, first: false });
                 out.count("relay_released_response_and_disconnect_together");
                 *acted = true;
                 return;
@@ -1651,7 +1660,7 @@ fn relay_in(w: &mut World, r: &mut Rng, cfg: &RelayCfg, faults_on: bool, to_serv
         }
     }
     if !faults_on {
-        w.flight.push(InFlight { at: tick, to_server, peer, generation, bytes: bytes.to_vec(), genuine: true });
+        w.flight.push(InFlight { at: tick, to_server, peer, generation, bytes: bytes.to_vec(), genuine: true, first: false });
         return;
     }
     let dirx = if to_server { 0 } else { 1 };
@@ -1685,7 +1694,7 @@ fn relay_in(w: &mut World, r: &mut Rng, cfg: &RelayCfg, faults_on: bool, to_serv
             if c > 0 {
                 delay += r.range(0, cfg.max_delay * 2);
             }
-            w.flight.push(InFlight { at: tick + delay, to_server, peer, generation, bytes: bytes.to_vec(), genuine: true });
+            w.flight.push(InFlight { at: tick + delay, to_server, peer, generation, bytes: bytes.to_vec(), genuine: true, first: starving && c == 0 });
         }
     }
     if r.chance(cfg.replay, 100) && !w.history.is_empty() {
@@ -1696,7 +1705,7 @@ fn relay_in(w: &mut World, r: &mut Rng, cfg: &RelayCfg, faults_on: bool, to_serv
             let g = w.peers[pk].generation;
             out.count("relay_replayed");
             *acted = true;
-            w.flight.push(InFlight { at: tick + r.range(0, 5), to_server: ts, peer: pk, generation: g, bytes: b, genuine: false });
+            w.flight.push(InFlight { at: tick + r.range(0, 5), to_server: ts, peer: pk, generation: g, bytes: b, genuine: false, first: false });
         }
     }
     if r.chance(cfg.corrupt, 100) {
@@ -1708,7 +1717,7 @@ fn relay_in(w: &mut World, r: &mut Rng, cfg: &RelayCfg, faults_on: bool, to_serv
             }
             out.count("relay_corrupted");
             *acted = true;
-            w.flight.push(InFlight { at: tick + r.range(0, 3), to_server, peer, generation, bytes: b, genuine: false });
+            w.flight.push(InFlight { at: tick + r.range(0, 3), to_server, peer, generation, bytes: b, genuine: false, first: false });
         }
     }
 }
